@@ -25,20 +25,23 @@ fn limits(rng: &mut Rng, dense: bool) -> Limits {
 /// earlier searches sit in it when a position the engine has not seen yet is searched.
 pub fn long_sessions(thorough: bool) -> u64 {
     if thorough {
-        160
+        96
     } else {
         16
     }
 }
 
-fn long_session(seed: u64) -> Vec<Plan> {
+fn long_session(seed: u64, thorough: bool) -> Vec<Plan> {
     use super::super::kernel::{Action, Policy};
     let mut rng = Rng::new(seed);
     let mut plan = Plan::new("C14", seed);
     let mut s = vec![];
-    for _ in 0..rng.range(4, 6) {
+    // (thorough: long enough for the cache to pass a million entries)
+    let searches = if thorough { rng.range(14, 22) } else { rng.range(4, 6) };
+    for _ in 0..searches {
         s.push(Action::send(format!("position fen {}", rng.pick(gen::BENCH_FENS))));
-        s.push(Action::send(format!("go nodes {}", rng.range(400_000, 800_000))));
+        let (lo, hi) = if thorough { (600_000, 1_100_000) } else { (400_000, 800_000) };
+        s.push(Action::send(format!("go nodes {}", rng.range(lo, hi))));
         s.push(Action::WaitBestmove);
         s.push(Action::WaitIdle);
         // probes on positions the session has not seen
@@ -54,8 +57,8 @@ fn long_session(seed: u64) -> Vec<Plan> {
     plan.script = s;
     plan.cost_ns = 1000;
     plan.policy = Some(Policy::Quiet);
-    plan.step_cap = 60_000_000;
-    plan.tick_cap = 200_000_000;
+    plan.step_cap = 400_000_000;
+    plan.tick_cap = 1_500_000_000;
     plan.params = super::super::json::J::obj().set("long_session", true);
     vec![plan]
 }
@@ -63,7 +66,7 @@ fn long_session(seed: u64) -> Vec<Plan> {
 pub fn generate(cx: &super::GenCtx) -> Vec<Plan> {
     let seed = cx.seed;
     if cx.index < long_sessions(cx.thorough) {
-        return long_session(seed);
+        return long_session(seed, cx.thorough);
     }
     let mut rng = Rng::new(seed);
     let mut plan = Plan::new("C14", seed);
